@@ -348,12 +348,16 @@ func c36MixedEval(kind string, build func(ix []int) (c36Cfg, []c36Case)) func(ix
 
 func c36MixedSpaces(thorough bool) []*c36Space {
 	var out []*c36Space
-	// row menus without / with the error entry
+	// list facts {false,true} in quick, {false,true,store error} in thorough for the two large families
+	t := 2
+	if thorough {
+		t = 3
+	}
 	// (a) one sender, two groups: the sender row is read once for both items
 	out = append(out, &c36Space{
 		name:  "mixed/one-sender-two-groups",
 		names: []string{"sender_row", "g1.channel_row", "g1.denylisted", "g1.subscriber", "g1.allowlist_nonempty", "g1.allowlisted", "g2.channel_row", "g2.denylisted", "g2.subscriber", "g2.allowlist_nonempty", "g2.allowlisted"},
-		dims:  []int{4, 6, 2, 2, 2, 2, 6, 2, 2, 2, 2},
+		dims:  []int{4, 6, t, t, t, t, 6, t, t, t, t},
 		eval: c36MixedEval("one-sender-two-groups", func(ix []int) (c36Cfg, []c36Case) {
 			cfg := c36Cfg{}
 			a := c36GroupCase(c36GroupFacts{Cfg: cfg, Sender: "u1", SenderRow: ix[0], GroupRow: ix[1], Denied: ix[2], Sub: ix[3], HasAllow: ix[4], Entry: ix[5], Group: "g1"})
@@ -366,7 +370,7 @@ func c36MixedSpaces(thorough bool) []*c36Space {
 	out = append(out, &c36Space{
 		name:  "mixed/two-senders-one-group",
 		names: []string{"second_sender", "channel_row", "allowlist_nonempty", "u1.sender_row", "u1.denylisted", "u1.subscriber", "u1.allowlisted", "s2.sender_row", "s2.denylisted", "s2.subscriber", "s2.allowlisted"},
-		dims:  []int{2, 6, 3, 4, 2, 2, 2, 4, 2, 2, 2},
+		dims:  []int{2, 6, 3, 4, t, t, t, 4, t, t, t},
 		eval: c36MixedEval("two-senders-one-group", func(ix []int) (c36Cfg, []c36Case) {
 			cfg := c36Cfg{SysUIDs: true}
 			a := c36GroupCase(c36GroupFacts{Cfg: cfg, Sender: "u1", SenderRow: ix[3], GroupRow: ix[1], Denied: ix[4], Sub: ix[5], HasAllow: ix[2], Entry: ix[6], Group: "g1"})
@@ -421,7 +425,6 @@ func c36MixedSpaces(thorough bool) []*c36Space {
 			return cfg, []c36Case{a, b}
 		}),
 	})
-	_ = thorough
 	return out
 }
 
